@@ -57,6 +57,8 @@ def run_impl(kind, version, extra_pairs, local, config, outcome, hint):
         if outcome.startswith('lib:'):
             from props import c08
             raise c08.make(outcome[4:], c08.lib_classes(), 'lib failed z', -2, 'um', 'sid')
+        if outcome == 'other2':
+            raise TypeError('boom y')
         raise RuntimeError('boom y')
     obs = {}
     with fixture.patched() as env:
@@ -106,7 +108,7 @@ def run(ctx, res):
                 'x both server kinds x initialize outcome {returns, provider error, other exception} x Proxy / local parameter maps with overlapping and reserved keys '
                 'x config file set or not x hint present or not; each followed by a real CLOSE request; non-trivial = distinct (kind, version, outcome, parameter shape)' % len(VERSIONS))
     cases = []
-    outcomes = ['ret', 'provider', 'other']
+    outcomes = ['ret', 'provider', 'other', 'other2']
     OTHER_LIB = {'meta': ['DataProviderError', 'FailureError', 'CreditsError', 'AccessError', 'NotificationError'],
                  'data': ['MetadataProviderError', 'FailureError', 'SubscribeError', 'CreditsError']}
     nvar = 2 if ctx.tier == 'quick' else 80
